@@ -17,8 +17,8 @@ namespace {
 constexpr int ALIVE = 0, DTOR = 10000, DEL = 20000, RETIRED = 30000, DELBAD = 40000, NEXTID = 40001, NDUMMY = 40002, DUMMY_BASE = 5000;
 constexpr int TAG_NODE = 1;
 
-const char* const kOps[] = {"read", "read_hold", "read_if_equal", "copy_read", "move_read", "replace", "remove", "rg_read", "none", "flush", "final_remove"};
-enum { OP_READ, OP_READ_HOLD, OP_READ_IFEQ, OP_COPY_READ, OP_MOVE_READ, OP_REPLACE, OP_REMOVE, OP_RG_READ, OP_NONE, OP_FLUSH, OP_FINAL_REMOVE, NOPS_ALPHABET = 9 };
+const char* const kOps[] = {"read", "read_hold", "read_if_equal", "copy_read", "move_read", "replace", "remove", "rg_read", "none", "rg_hold", "flush", "final_remove"};
+enum { OP_READ, OP_READ_HOLD, OP_READ_IFEQ, OP_COPY_READ, OP_MOVE_READ, OP_REPLACE, OP_REMOVE, OP_RG_READ, OP_NONE, OP_RG_HOLD, OP_FLUSH, OP_FINAL_REMOVE, NOPS_ALPHABET = 10 };
 
 template <class R, bool CustomDeleter>
 struct NodeT;
@@ -114,6 +114,24 @@ struct Proto {
           GP g = xenium::acquire_guard(c, std::memory_order_acquire); // the helper of xenium/acquire_guard.hpp
           if (g) deref(g, -1, "second acquire in region");
         }
+        break;
+      }
+      case OP_RG_HOLD: {
+        // guard_ptr and region_guard lifetimes that are not nested the way the repository's tests nest them (seed C01d): a guard acquired inside a
+        // region_guard scope outlives it; if the thread already holds a guard, a region_guard (with another guarded access) is opened and closed next to it
+        {
+          typename R::region_guard rg;
+          GP g;
+          g.acquire(c, std::memory_order_acquire);
+          if (g) {
+            deref(g, -1, "acquire in region");
+            if (!ctx.held) {
+              ctx.held_id = g->id;
+              ctx.held = std::move(g);
+            }
+          }
+        }
+        if (ctx.held) deref(ctx.held, ctx.held_id, "guard that outlives a region_guard");
         break;
       }
       case OP_READ_HOLD: {
@@ -254,7 +272,7 @@ struct Proto {
   // ------------------------------------------------------------------------------------------
   // all programs: T threads x m ops over (alphabet given by bitmask `ops`) x cells
   static void all_programs() {
-    set_op_names(kOps, 11);
+    set_op_names(kOps, 12);
     const int T = (int)opt("T", 2), m = (int)opt("m", 2), ncells = (int)opt("cells", 1);
     const long mask = opt("ops", 0xff);
     const int gens = (int)opt("gens", 1);
@@ -349,6 +367,19 @@ struct Proto {
           ops[2][i] = i == 0 ? OP_REMOVE : OP_READ;
           cix[0][i] = cix[1][i] = 0;
           cix[2][i] = (i > 0 && ncells > 1) ? 1 : 0; // reading an emptied cell would not enter a critical region
+        }
+        any_update = any_read = true;
+      }
+      else if (fixed == 4) {
+        // family "a guard_ptr that outlives a region_guard" (needs T=2, m=4): a reader whose guard is acquired inside a region_guard scope and used after
+        // it (variant 1: acquired first, a region_guard is opened and closed next to it) | a writer that unlinks and retires the node and then enters three
+        // more critical regions - enough for every epoch based configuration that scans at each entry to reclaim it, were the reader not protected
+        if (T != 2 || m != 4) fail("ENGINE", "fixed=4 needs T=2 m=4");
+        const int variant = choose(2);
+        for (int i = 0; i < 4; i++) {
+          ops[0][i] = variant == 0 ? (i == 0 ? OP_RG_HOLD : OP_NONE) : (i == 0 ? OP_READ_HOLD : i == 1 ? OP_RG_HOLD : OP_NONE);
+          ops[1][i] = i == 0 ? OP_REPLACE : OP_READ;
+          cix[0][i] = cix[1][i] = 0;
         }
         any_update = any_read = true;
       }
